@@ -554,7 +554,7 @@ class AsyncParmapper(AsyncIterable):
 
             loop = asyncio.get_running_loop()
 
-            async for z in async_fifo_stream(
+            results = async_fifo_stream(
                 self._instream,
                 func,
                 capacity=self._concurrency * 2,
@@ -564,8 +564,14 @@ class AsyncParmapper(AsyncIterable):
                 executor=executor,
                 loop=loop,
                 **self._func_kwargs,
-            ):
-                yield z
+            )
+            try:
+                async for z in results:
+                    yield z
+            finally:
+                # Closing this generator must also stop the feeder task of the inner one
+                # (before the executor is shut down).
+                await results.aclose()
 
 
 class AsyncParmapperAsync(AsyncIterable):
